@@ -211,6 +211,14 @@ func (n *SimNet) roundTrip(req *http.Request) (*http.Response, error) {
 				cut = fault.Arg
 			}
 			data = data[:cut]
+		case "hostile-json":
+			// a well-formed JSON reply whose fields are not what the API promises
+			fire(fault.Kind)
+			variants := []string{`{"acks":[5]}`, `{"acks":["zz"]}`, `{"acks":["00112233445566778899aabbccddeeff0011223344"]}`, `{"acks":[""]}`, `{"acks":["0"]}`,
+				`{"tableHaves":[null]}`, `{"tableHaves":[null,"00112233445566778899aabbccddeeff"]}`, `{"tableHaves":["00"]}`, `{"acks":[null]}`, `[]`, `null`, `{"acks":{"a":1}}`, `{"acks":[[]]}`, `"x"`, `{"refs":{"heads/main":5}}`, `{"refs":{"heads/main":"00"}}`, `{"refs":{"":null}}`, `{"tableACKs":[null]}`, `{"tableACKs":[7]}`, `{"updates":{"heads/main":null}}`, `{"updates":{"heads/main":{"sum":5}}}`, `{"updates":{"heads/main":{"errMsg":7}}}`}
+			data = []byte(variants[fault.Arg%len(variants)])
+			resp.StatusCode, resp.Status = 200, "200 OK"
+			resp.Header.Set("Content-Type", "application/json")
 		case "flip":
 			if len(data) > 0 {
 				fire(fault.Kind)
